@@ -38,9 +38,8 @@ def natStr (n : Nat) : Str := natRepr n
 def optText (s : Str) : Option Str := if s.isEmpty then none else some s
 
 /-- the text of one paragraph as element content: children for white-space mark-up -/
-def encodeInline (f : OdsFeatures) (text : Str) : Option Str × List Xml :=
-  if f.spans then (none, [.node "text:span" [] (some text) [] none])
-  else if f.whitespace then
+def encodeInlinePlain (whitespace : Bool) (text : Str) : Option Str × List Xml :=
+  if whitespace then
     -- split at the first tab / line break / double blank; what follows goes into the tail of the mark-up element
     let rec go : Nat → Str → Str → (Option Str × List Xml)
       | 0, _, acc => (optText acc.reverse, [])
@@ -58,6 +57,11 @@ def encodeInline (f : OdsFeatures) (text : Str) : Option Str × List Xml :=
       | fuel + 1, c :: rest, acc => go fuel rest (c :: acc)
     go (text.length + 1) text []
   else (optText text, [])
+
+/-- with `spans` the whole paragraph is wrapped in one `text:span`, white-space elements included -/
+def encodeInline (f : OdsFeatures) (text : Str) : Option Str × List Xml :=
+  if f.spans then (none, [.node "text:span" [] (encodeInlinePlain f.whitespace text).1 (encodeInlinePlain f.whitespace text).2 none])
+  else encodeInlinePlain f.whitespace text
 
 def splitLines (s : Str) : List Str :=
   let rec go : Str → Str → List Str
